@@ -89,6 +89,44 @@ theorem cursorUpsert_spec {ed : Ed} (hinv : Inv ed) {pfx : Path} {t : List Entry
         · rw [h]; exact (hdirs pfx (List.prefix_refl _)).symm
     · simp [h3]
 
+theorem spec_graft_prefix (P p : Path) (sub : FS) (fs : FS) (r : Path) :
+    Spec.C04.graft (P ++ p) sub fs (P ++ r) = Spec.C04.graft p sub (fun r' => fs (P ++ r')) r := by
+  have hd : (P ++ r).drop (P ++ p).length = r.drop p.length := by
+    rw [List.length_append, ← List.drop_drop]
+    simp
+  simp only [Spec.C04.graft, List.append_right_inj, List.prefix_append_right_inj, hd]
+
+/-- `Cursor::upsert` of kind Tree with the id of a stored tree -/
+theorem cursorUpsert_tree_spec {ed : Ed} (hinv : Inv ed) {pfx : Path} {t : List Entry}
+    (hP : aget pfx ed.trees = some t) {p : Path} (hp : ValidPath p) {id : Bytes} {ts : List Entry}
+    (hst : aget id ed.store = some ts) (hne : id ≠ emptyTreeId) :
+    ∃ ed', cursorUpsert ed pfx p 0o040000 id = .ok ed' ∧ Inv ed' ∧ ed'.store = ed.store ∧
+      (aget pfx ed'.trees).isSome = true ∧
+      abs ed' = Spec.C04.graft (pfx ++ p) (absStore ed.store ts) (abs ed) := by
+  have h := editLoop_upsert_tree ⟨0o040000, id, .normal⟩ rfl rfl hne p hp.1 hp.2
+    { ed with pathBuf := pfx } pfx t ts (inv_pathBuf hinv pfx) rfl hP hst
+  refine edit_at_prefix hinv hP ?_ ?_ ?_ h
+  · intro f g r hfg; exact spec_graft_congr _ _ r hfg
+  · intro fs r _; exact spec_graft_prefix pfx p _ fs r
+  · intro fs q hdirs hq
+    unfold Spec.C04.graft
+    have h2 : ¬ (pfx ++ p) <+: q := by
+      rcases hq with h | h
+      · intro e; exact h ((List.prefix_append _ _).trans e)
+      · intro e; rw [h] at e
+        have := List.IsPrefix.length_le e
+        simp at this
+        exact hp.1 (List.length_eq_zero_iff.1 (by omega))
+    simp only [h2, if_false]
+    by_cases h3 : q <+: pfx ++ p
+    · simp only [h3, if_true]
+      rcases List.prefix_or_prefix_of_prefix h3 (List.prefix_append pfx p) with h4 | h4
+      · exact (hdirs q h4).symm
+      · rcases hq with h | h
+        · exact absurd h4 h
+        · rw [h]; exact (hdirs pfx (List.prefix_refl _)).symm
+    · simp [h3]
+
 /-- `Cursor::remove` -/
 theorem cursorRemove_spec {ed : Ed} (hinv : Inv ed) {pfx : Path} {t : List Entry}
     (hP : aget pfx ed.trees = some t) {p : Path} (hp : ValidPath p) :
@@ -169,16 +207,30 @@ theorem applyF_spec {hash : List Entry → Bytes} (hh : HashOk hash) {S0 : Assoc
       cases hP : aget pfx r.ed.trees with
       | none => simp [hP] at hcached
       | some t =>
-        obtain ⟨ed', h1, h2, h3, h4, h5⟩ := cursorUpsert_spec hg.inv.inv hP hp (id := id) hk
-        refine ⟨⟨ed', some pfx⟩, by simp [applyF, hcur, h1],
-          ⟨⟨h2, h3 ▸ hg.inv.hashed, h3 ▸ hg.inv.canon⟩, h3 ▸ hg.mono, ?_, ?_, ?_⟩, by rw [hcur] at hrest; exact hrest⟩
-        · have hs2 : s.2 = some pfx := by rw [← hg.cursor_eq, hcur]
-          simp only [specF, hs2]; rw [h5, hg.abs_eq]
-        · have hs2 : s.2 = some pfx := by rw [← hg.cursor_eq, hcur]
-          simp only [specF, hs2]
-        · intro pfx' h'
-          simp only [Option.some.injEq] at h'
-          rw [← h']; exact h4
+        have hs2 : s.2 = some pfx := by rw [← hg.cursor_eq, hcur]
+        rcases hk with hk | ⟨hmode, hne, ts, hts⟩
+        · obtain ⟨ed', h1, h2, h3, h4, h5⟩ := cursorUpsert_spec hg.inv.inv hP hp (id := id) hk
+          refine ⟨⟨ed', some pfx⟩, by simp [applyF, hcur, h1],
+            ⟨⟨h2, h3 ▸ hg.inv.hashed, h3 ▸ hg.inv.canon⟩, h3 ▸ hg.mono, ?_, ?_, ?_⟩, by rw [hcur] at hrest; exact hrest⟩
+          · simp only [specF, hs2, hk, Bool.false_eq_true, if_false]; rw [h5, hg.abs_eq]
+          · simp only [specF, hs2]
+          · intro pfx' h'
+            simp only [Option.some.injEq] at h'
+            rw [← h']; exact h4
+        · subst hmode
+          have hst := hg.mono _ _ hts
+          obtain ⟨ed', h1, h2, h3, h4, h5⟩ := cursorUpsert_tree_spec hg.inv.inv hP hp hst hne
+          refine ⟨⟨ed', some pfx⟩, by simp [applyF, hcur, h1],
+            ⟨⟨h2, h3 ▸ hg.inv.hashed, h3 ▸ hg.inv.canon⟩, h3 ▸ hg.mono, ?_, ?_, ?_⟩, by rw [hcur] at hrest; exact hrest⟩
+          · simp only [specF, hs2, isTree_040000, if_true, hts]
+            rw [h5, hg.abs_eq]
+            congr 1
+            funext q
+            exact lookup_store_mono hS0 hg.mono q ts [] (storeOk_closed hS0 hts)
+          · simp only [specF, hs2]
+          · intro pfx' h'
+            simp only [Option.some.injEq] at h'
+            rw [← h']; exact h4
   | cRemove p =>
     simp only [ValidF] at hv
     obtain ⟨hc, hp, hrest⟩ := hv
